@@ -56,6 +56,131 @@ Proof.
     apply String.eqb_eq in Ha. apply Hslow; assumption.
 Qed.
 
+(* the same clash, as a statement about rows: a trashed row whose artifact emptyTrash removes and a row of a dataset that
+   is stored and not trashed never name the same location *)
+Lemma trashed_deleted_live_clash : forall s id p id' p',
+  sharing_visible s = true ->
+  In (id, p) (recs s) -> memN id (trash s) = true ->
+  In (id', p') (recs s) -> memN id' (live s) = true -> memN id' (trash s) = false ->
+  deletes s p = true -> loc p = loc p' -> False.
+Proof.
+  intros s id p id' p' Hvis Hrec Htr Hrec' Hlive' Hnt Hdel Hloc.
+  assert (Hnt' : negb (memN id' (trash s)) = true) by (rewrite Hnt; reflexivity).
+  unfold sharing_visible in Hvis. rewrite forallb_forall in Hvis. specialize (Hvis _ Hrec).
+  rewrite forallb_forall in Hvis. specialize (Hvis _ Hrec'). simpl in Hvis. unfold visible_pair in Hvis.
+  assert (El : lkey_eqb (loc p) (loc p') = true) by (apply lkey_eqb_eq; exact Hloc).
+  rewrite El in Hvis. simpl in Hvis.
+  unfold deletes in Hdel. apply andb_true_iff in Hdel. destruct Hdel as [Hkeep _]. apply negb_true_iff in Hkeep.
+  assert (Hlr : In (id', p') (live_recs s)).
+  { unfold live_recs. apply filter_In. split; [exact Hrec' | exact Hlive']. }
+  assert (Htrr : In (id, p) (trashed_recs s)).
+  { unfold trashed_recs. apply filter_In. split; [exact Hrec | exact Htr]. }
+  assert (Hslow : has_char "#"%char p = true -> has_char "#"%char p' = true -> artifact_of p = artifact_of p' -> False).
+  { intros Hh Hh' Ha.
+    assert (K : memS (artifact_of p) (keep s) = true).
+    { apply memS_in. unfold keep. apply in_or_app. right.
+      replace (existsb (fun r => has_char "#"%char (snd r)) (trashed_recs s)) with true.
+      2:{ symmetry. apply existsb_exists. exists (id, p). split; [exact Htrr | exact Hh]. }
+      unfold slow_keep. rewrite Ha. apply (in_map (fun r => artifact_of (snd r)) _ (id', p')).
+      apply filter_In. split; [exact Hrec'|]. simpl. rewrite Hnt'. simpl.
+      apply existsb_exists. exists (artifact_of p). split.
+      - unfold prefixes. apply (in_map (fun r => artifact_of (snd r)) _ (id, p)). apply filter_In. split; [exact Htrr | exact Hh].
+      - rewrite Ha. apply like_self_prefix. exact Hh'. }
+    rewrite K in Hkeep. discriminate. }
+  apply orb_true_iff in Hvis. destruct Hvis as [Heq | Hfrag].
+  - apply String.eqb_eq in Heq. subst p'.
+    destruct (has_char "#"%char p) eqn:Hh.
+    + apply Hslow; reflexivity.
+    + assert (K : memS (artifact_of p) (keep s) = true).
+      { apply memS_in. unfold keep. apply in_or_app. left. rewrite (artifact_of_plain _ Hh).
+        unfold preserved. apply (in_map snd _ (id, p)). apply filter_In. split; [exact Htrr|].
+        apply existsb_exists. exists (id', p). split; [exact Hlr | apply String.eqb_refl]. }
+      rewrite K in Hkeep. discriminate.
+  - apply andb_true_iff in Hfrag. destruct Hfrag as [Hfrag Ha]. apply andb_true_iff in Hfrag. destruct Hfrag as [Hh Hh'].
+    apply String.eqb_eq in Ha. apply Hslow; assumption.
+Qed.
+
+(* ---- emptyTrash with the record-location check (5539e78) ---------------------------------------------------------- *)
+Lemma delete_upto_complete : forall s rows f f', delete_upto s rows f = (f', true) -> f' = delete_all s rows f.
+Proof.
+  induction rows as [|r rest IH]; intros f f' H; simpl in H |- *; [inversion H; reflexivity|].
+  destruct (poison s (snd r)); [discriminate|]. apply IH. exact H.
+Qed.
+
+(* whatever the records say, the rows that ARE processed name locations inside the root *)
+Lemma delete_upto_frame : forall s rows f l, inside l = false -> fget (fst (delete_upto s rows f)) l = fget f l.
+Proof.
+  induction rows as [|r rest IH]; intros f l Hl; simpl; [reflexivity|].
+  destruct (poison s (snd r)) eqn:P; [reflexivity|].
+  rewrite IH by exact Hl. destruct (deletes s (snd r)) eqn:D; [|reflexivity].
+  unfold poison in P. rewrite D in P. simpl in P. apply negb_false_iff in P.
+  apply fget_fdel_other. apply inside_differ; assumption.
+Qed.
+
+Lemma delete_upto_deleted : forall s rows f l c,
+  fget f l = Some c -> fget (fst (delete_upto s rows f)) l = None ->
+  exists r, In r rows /\ deletes s (snd r) = true /\ loc (snd r) = l.
+Proof.
+  induction rows as [|r rest IH]; intros f l c Hf Hd; simpl in Hd; [rewrite Hf in Hd; discriminate|].
+  destruct (poison s (snd r)); [simpl in Hd; rewrite Hf in Hd; discriminate|].
+  destruct (deletes s (snd r)) eqn:D.
+  - destruct (lkey_eqb (loc (snd r)) l) eqn:E.
+    + exists r. split; [left; reflexivity|]. split; [exact D | apply lkey_eqb_eq; exact E].
+    + rewrite <- (fget_fdel_other f _ _ E) in Hf.
+      destruct (IH _ _ _ Hf Hd) as [r' [Hin Hr']]. exists r'. split; [right; exact Hin | exact Hr'].
+  - destruct (IH _ _ _ Hf Hd) as [r' [Hin Hr']]. exists r'. split; [right; exact Hin | exact Hr'].
+Qed.
+
+Lemma empty_trash_v_outside_frame : forall s l, inside l = false ->
+  fget (fs (fst (empty_trash_v true s))) l = fget (fs s) l.
+Proof.
+  intros s l Hl. unfold empty_trash_v.
+  pose proof (delete_upto_frame s (trashed_recs s) (fs s) l Hl) as K.
+  destruct (delete_upto s (trashed_recs s) (fs s)) as [f b]. simpl in K. destruct b; simpl; exact K.
+Qed.
+
+Lemma live_disjoint_spec : forall s id, live_trash_disjoint s = true -> memN id (live s) = true -> memN id (trash s) = false.
+Proof.
+  intros s id H Hl. unfold live_trash_disjoint in H. rewrite forallb_forall in H.
+  unfold memN in Hl. apply existsb_exists in Hl. destruct Hl as [y [Hin Hy]]. apply N.eqb_eq in Hy. subst y.
+  specialize (H _ Hin). apply negb_true_iff in H. exact H.
+Qed.
+
+Lemma empty_trash_v_unreferenced_p : forall s l c,
+  sharing_visible s = true -> live_trash_disjoint s = true ->
+  fget (fs s) l = Some c -> fget (fs (fst (empty_trash_v true s))) l = None ->
+  referenced (fst (empty_trash_v true s)) l = false.
+Proof.
+  intros s l c Hvis Hdis Hf Hd. unfold empty_trash_v in *.
+  destruct (delete_upto s (trashed_recs s) (fs s)) as [f b] eqn:E.
+  destruct b.
+  - (* the loop completed: exactly emptyTrash without the check *)
+    pose proof (delete_upto_complete _ _ _ _ E) as Ef. subst f.
+    apply (empty_trash_unreferenced_p s l c Hvis Hf). exact Hd.
+  - (* refused part-way: records and tables unchanged, some artifacts of trashed rows gone *)
+    cbn [fst fs with_fs] in Hd |- *.
+    assert (Hd' : fget (fst (delete_upto s (trashed_recs s) (fs s))) l = None) by (rewrite E; exact Hd).
+    destruct (delete_upto_deleted _ _ _ _ _ Hf Hd') as [[id p] [Hin [Hdel Hloc]]]. simpl in Hdel, Hloc.
+    apply filter_In in Hin. destruct Hin as [Hrec Htr]. simpl in Htr.
+    destruct (referenced (with_fs s f) l) eqn:R; [|reflexivity]. exfalso.
+    unfold referenced, live_recs in R. apply existsb_exists in R. destruct R as [[id' p'] [Hin' Hl']]. simpl in Hl'.
+    apply filter_In in Hin'. destruct Hin' as [Hrec' Hlive']. simpl in Hrec', Hlive'.
+    apply lkey_eqb_eq in Hl'.
+    apply (trashed_deleted_live_clash s id p id' p' Hvis Hrec Htr Hrec' Hlive'
+             (live_disjoint_spec s id' Hdis Hlive') Hdel). congruence.
+Qed.
+
+Lemma disjoint_trash : forall s ids, live_trash_disjoint s = true -> live_trash_disjoint (do_trash s ids) = true.
+Proof.
+  intros s ids H. unfold live_trash_disjoint in *. rewrite forallb_forall in *. intros id Hin. simpl in Hin.
+  apply filter_In in Hin. destruct Hin as [Hin Hni]. simpl.
+  apply negb_true_iff. unfold memN. rewrite existsb_app. apply orb_false_iff. split.
+  - destruct (existsb (N.eqb id) (filter (fun id0 => memN id0 ids) (live s))) eqn:E; [|exact E].
+    apply existsb_exists in E. destruct E as [y [Hy Ey]]. apply N.eqb_eq in Ey. subst y.
+    apply filter_In in Hy. destruct Hy as [_ Hy]. rewrite Hy in Hni. discriminate.
+  - specialize (H _ Hin). apply negb_true_iff in H. exact H.
+Qed.
+
 (* trash only moves ids between the two location tables *)
 Lemma do_trash_fs : forall s ids, fs (do_trash s ids) = fs s.
 Proof. reflexivity. Qed.
@@ -72,12 +197,13 @@ Definition touches_env (s : state) (x : op) (l : lkey) : bool :=
 (* ---- one step: a file that disappears was unreferenced -------------------------------------------------------- *)
 Lemma step_deletes_unreferenced_p : forall s x l c,
   sharing_visible s = true -> reingest s x = false -> target_inside x = true -> put_coherent x = true ->
+  live_trash_disjoint s = true ->
   touches_env s x l = false ->
   fget (fs s) l = Some c -> fget (fs (fst (step s x))) l = None ->
   referenced (fst (step s x)) l = false.
 Proof.
-  intros s x l c Hvis Hre Hti Hpc Henv Hf Hd.
-  destruct x as [id fr ext c0 | m ids fr ext src | ids a | ids rel | members z c0 | ids | | ids | ids | l' c'];
+  intros s x l c Hvis Hre Hti Hpc Hdis Henv Hf Hd.
+  destruct x as [id fr ext c0 | m ids fr ext src | ids a | ids rel | members z c0 | ids | | ids | ids | l' c' | rids];
     unfold step, step_v in Hd |- *; simpl in Hre, Hti, Henv.
   - (* Put *)
     destruct fr as [p| |]; [| simpl in Hd; rewrite Hf in Hd; discriminate | simpl in Hd; rewrite Hf in Hd; discriminate].
@@ -113,35 +239,23 @@ Proof.
     + apply lkey_eqb_eq in E. subst l. rewrite fget_fset_same in Hd. discriminate.
     + rewrite (fget_fset_other _ _ _ _ E) in Hd. rewrite Hf in Hd. discriminate.
   - (* Trash *) simpl in Hd. rewrite Hf in Hd. discriminate.
-  - (* EmptyTrash *) apply (empty_trash_unreferenced_p s l c Hvis Hf Hd).
-  - (* Prune *) apply (empty_trash_unreferenced_p (do_trash s ids) l c); [exact Hvis | exact Hf | exact Hd].
-  - (* RemoveRun *) apply (empty_trash_unreferenced_p (do_trash s ids) l c); [exact Hvis | exact Hf | exact Hd].
+  - (* EmptyTrash *) apply (empty_trash_v_unreferenced_p s l c Hvis Hdis Hf Hd).
+  - (* Prune *) apply (empty_trash_v_unreferenced_p (do_trash s ids) l c); [exact Hvis | apply disjoint_trash; exact Hdis | exact Hf | exact Hd].
+  - (* RemoveRun *) apply (empty_trash_v_unreferenced_p (do_trash s ids) l c); [exact Hvis | apply disjoint_trash; exact Hdis | exact Hf | exact Hd].
   - (* Ext *)
     destruct c' as [v|]; cbn [fst fs with_fs] in Hd.
     + rewrite (fget_fset_other _ _ _ _ Henv) in Hd. rewrite Hf in Hd. discriminate.
     + rewrite (fget_fdel_other _ _ _ Henv) in Hd. rewrite Hf in Hd. discriminate.
+  - (* Reorder *) simpl in Hd. rewrite Hf in Hd. discriminate.
 Qed.
 
 (* ---- one step: nothing outside the root changes ------------------------------------------------------------------ *)
-Lemma recs_inside_trash : forall s ids, recs_inside (do_trash s ids) = recs_inside s.
-Proof. reflexivity. Qed.
-
-Lemma empty_trash_outside_frame : forall s l, recs_inside s = true -> inside l = false ->
-  fget (fs (empty_trash s)) l = fget (fs s) l.
-Proof.
-  intros s l Hri Hl. simpl. apply delete_all_frame. intros [id p] Hin Hdel. simpl in *.
-  apply filter_In in Hin. destruct Hin as [Hrec _].
-  unfold recs_inside in Hri. rewrite forallb_forall in Hri. specialize (Hri _ Hrec). simpl in Hri.
-  unfold deletes in Hdel. apply andb_true_iff in Hdel. destruct Hdel as [_ Hna]. apply negb_true_iff in Hna.
-  rewrite Hna in Hri. simpl in Hri. apply inside_differ; assumption.
-Qed.
-
 Lemma step_outside_frame_p : forall s x l,
-  recs_inside s = true -> target_inside x = true -> put_coherent x = true -> inside l = false -> touches_env s x l = false ->
+  target_inside x = true -> put_coherent x = true -> inside l = false -> touches_env s x l = false ->
   fget (fs (fst (step s x))) l = fget (fs s) l.
 Proof.
-  intros s x l Hri Hti Hpc Hl Henv.
-  destruct x as [id fr ext c0 | m ids fr ext src | ids a | ids rel | members z c0 | ids | | ids | ids | l' c'];
+  intros s x l Hti Hpc Hl Henv.
+  destruct x as [id fr ext c0 | m ids fr ext src | ids a | ids rel | members z c0 | ids | | ids | ids | l' c' | rids];
     unfold step, step_v; simpl in Hti, Henv.
   - destruct fr as [p| |]; [| reflexivity | reflexivity].
     destruct (refuse_location true p); [reflexivity|].
@@ -163,10 +277,11 @@ Proof.
   - assert (E : lkey_eqb (rel_loc z) l = false) by (apply inside_differ; assumption).
     destruct (held_any s (map fst members)); cbn [fst fs add_recs with_fs]; [apply fget_fdel_other | apply fget_fset_other]; exact E.
   - reflexivity.
-  - apply empty_trash_outside_frame; assumption.
-  - apply (empty_trash_outside_frame (do_trash s ids)); assumption.
-  - apply (empty_trash_outside_frame (do_trash s ids)); assumption.
+  - apply empty_trash_v_outside_frame; assumption.
+  - apply (empty_trash_v_outside_frame (do_trash s ids)); assumption.
+  - apply (empty_trash_v_outside_frame (do_trash s ids)); assumption.
   - destruct c'; cbn [fst fs with_fs]; [apply fget_fset_other | apply fget_fdel_other]; exact Henv.
+  - reflexivity.
 Qed.
 
 (* ---- every history ---------------------------------------------------------------------------------------------------- *)
@@ -174,7 +289,7 @@ Fixpoint guarded (s : state) (h : list op) : bool :=
   match h with
   | [] => true
   | x :: r => sharing_visible s && negb (reingest s x) && target_inside x && recs_inside s && put_coherent x
-              && guarded (fst (step s x)) r
+              && live_trash_disjoint s && guarded (fst (step s x)) r
   end.
 
 Fixpoint untouched_by_env (s : state) (h : list op) (l : lkey) : bool :=
@@ -219,20 +334,32 @@ Proof.
 Qed.
 
 (* a sibling that shares the artifact keeps it: multi-ref files, zip members *)
+Lemma delete_upto_only_deletes : forall s rows f l c',
+  fget (fst (delete_upto s rows f)) l = Some c' -> fget f l = Some c'.
+Proof.
+  induction rows as [|r rest IH]; intros f l c' H; simpl in H; [exact H|].
+  destruct (poison s (snd r)); [exact H|].
+  specialize (IH _ _ _ H). destruct (deletes s (snd r)); [|exact IH].
+  destruct (lkey_eqb (loc (snd r)) l) eqn:El.
+  - apply lkey_eqb_eq in El. subst l. rewrite fget_fdel_same in IH. discriminate.
+  - rewrite (fget_fdel_other _ _ _ El) in IH. exact IH.
+Qed.
+
 Lemma shared_survives_p : forall s ids l c,
-  sharing_visible s = true -> fget (fs s) l = Some c ->
-  referenced (empty_trash (do_trash s ids)) l = true ->
+  sharing_visible s = true -> live_trash_disjoint s = true -> fget (fs s) l = Some c ->
+  referenced (fst (step s (Prune ids))) l = true ->
   fget (fs (fst (step s (Prune ids)))) l = Some c.
 Proof.
-  intros s ids l c Hvis Hf Href. change (fst (step s (Prune ids))) with (empty_trash (do_trash s ids)).
-  destruct (fget (fs (empty_trash (do_trash s ids))) l) as [c'|] eqn:E.
-  - (* still there: the content is unchanged because emptyTrash only deletes *)
-    assert (K : forall rows f, fget (delete_all (do_trash s ids) rows f) l = Some c' -> fget f l = Some c').
-    { induction rows as [|r rest IH]; intros f H; simpl in H; [exact H|].
-      specialize (IH _ H). destruct (deletes (do_trash s ids) (snd r)); [|exact IH].
-      destruct (lkey_eqb (loc (snd r)) l) eqn:El.
-      - apply lkey_eqb_eq in El. subst l. rewrite fget_fdel_same in IH. discriminate.
-      - rewrite (fget_fdel_other _ _ _ El) in IH. exact IH. }
-    cbn [empty_trash fs] in E. apply K in E. rewrite do_trash_fs in E. rewrite Hf in E. symmetry. exact E.
-  - exfalso. pose proof (empty_trash_unreferenced_p (do_trash s ids) l c Hvis Hf E) as R. rewrite R in Href. discriminate.
+  intros s ids l c Hvis Hdis Hf Href.
+  change (fst (step s (Prune ids))) with (fst (empty_trash_v true (do_trash s ids))) in *.
+  destruct (fget (fs (fst (empty_trash_v true (do_trash s ids)))) l) as [c'|] eqn:E.
+  - assert (K : fget (fs (do_trash s ids)) l = Some c').
+    { unfold empty_trash_v in E.
+      pose proof (delete_upto_only_deletes (do_trash s ids) (trashed_recs (do_trash s ids)) (fs (do_trash s ids)) l c') as D.
+      destruct (delete_upto (do_trash s ids) (trashed_recs (do_trash s ids)) (fs (do_trash s ids))) as [f b].
+      destruct b; cbn [fst fs with_fs] in E; apply D; exact E. }
+    rewrite do_trash_fs in K. rewrite Hf in K. symmetry. exact K.
+  - exfalso.
+    pose proof (empty_trash_v_unreferenced_p (do_trash s ids) l c Hvis (disjoint_trash s ids Hdis) Hf E) as R.
+    rewrite R in Href. discriminate.
 Qed.
